@@ -164,7 +164,8 @@ class PLIST(Filetype):
     def build_tree_handling_errors(self, path: str, options: Optional[BuildOptions] = None) -> Union[str, TreeNode]:
         try:
             return self.build_tree(path=path, options=options)
-        except (ExpatError, ValueError, LookupError) as ee:
+        except (ExpatError, ValueError, LookupError, AttributeError) as ee:
+            # (plistlib raises AttributeError for a <date> it cannot parse)
             return f'Error parsing {os.path.basename(path)}: {ee})'
 
     def get_default_formatter(self) -> PLISTFormatter:
